@@ -18,4 +18,18 @@ def K(test, quick=400, thorough=4000, shards=12, level="exploration", pkg="world
 
 CHECKS = {
     "C01": K("TestC01", quick=600, thorough=5000),
+    "C02": K("TestC02", quick=600, thorough=5000),
+    "C03": K("TestC03(K|D)", quick=500, thorough=4000, qenv={"VERIF_D_FACTOR": 20}, tenv={"VERIF_D_FACTOR": 50}),
+    "C04": K("TestC04(K|D)", quick=500, thorough=4000, qenv={"VERIF_D_FACTOR": 20}, tenv={"VERIF_D_FACTOR": 50}),
+    "C05": K("TestC05", quick=600, thorough=5000),
+    "C06": K("TestC06", quick=600, thorough=5000),
+    "C08": K("TestC08", quick=600, thorough=5000),
+    "C09": K("TestC09(K|D)", quick=400, thorough=3000, qenv={"VERIF_D_FACTOR": 3}, tenv={"VERIF_D_FACTOR": 5}),
+    "C11": K("TestC11", quick=600, thorough=5000),
+    "C12": K("TestC12", quick=600, thorough=5000),
+    "C13": K("TestC13", quick=600, thorough=5000),
+    "C15": K("TestC15", quick=400, thorough=3000),
+    "C16": K("TestC16", quick=300, thorough=2000),
+    "C17": K("TestC17", quick=1500, thorough=12000, level="fault_enumeration"),
+    "C19": K("TestC19", quick=300, thorough=2500),
 }
